@@ -89,6 +89,19 @@ _mutable_spec: tuple[tuple[type[t.Any], frozenset[str]], ...] = (
 )
 
 
+def _plain_str(s: str) -> str:
+    """Return an exact ``str`` with the characters of ``s``. Attribute names
+    can come from template data as instances of ``str`` subclasses whose
+    ``startswith``, ``__eq__``, ``__hash__`` or ``__str__`` answer differently
+    from the characters ``getattr`` looks up; the safety checks must see
+    those characters.
+    """
+    if type(s) is str:
+        return s
+
+    return str.__str__(s)
+
+
 def safe_range(*args: int) -> range:
     """A range that can't generate ranges with a length of more than
     MAX_RANGE items.
@@ -304,7 +317,7 @@ class SandboxedEnvironment(Environment):
             if isinstance(argument, str):
                 # str() of a str subclass runs data code; whatever it raises
                 # belongs to the caller and is not a lookup failure.
-                attr = str(argument)
+                attr = _plain_str(str(argument))
 
                 try:
                     value = getattr(obj, attr)
@@ -327,6 +340,9 @@ class SandboxedEnvironment(Environment):
         """Subscribe an object from sandboxed code and prefer the
         attribute.  The attribute passed *must* be a bytestring.
         """
+        if isinstance(attribute, str):
+            attribute = _plain_str(attribute)
+
         try:
             value = getattr(obj, attribute)
         except AttributeError:
